@@ -562,6 +562,8 @@ def compare(ctx, rec, val):
 
 
 def check_histories(ctx, recs):
+    if not recs:
+        return
     terms = [T.ghist(r["w0"], [(s["F"], s["op"]) for s in r["steps"]]) for r in recs]
     vals = ctx.coq_eval("c01", T.REQ, terms, chunk=max(4, len(terms) // 16 + 1))
     for r, v in zip(recs, vals):
@@ -605,9 +607,12 @@ def run(ctx, args):
                 recs.append(run_history(ctx, ctx.rng, len(case["ops"]), 0,
                                         fixed={"docs": case["docs"], "ops": case["ops"], "pool": case.get("pool", [])}))
         else:
-            n = 260 if quick else 6000
-            for h in range(n):
-                recs.append(run_history(ctx, ctx.rng, ctx.rng.randint(1, 25), h))
+            # batches: the real side and the Coq evaluation of one batch are done before the next one starts
+            batches = 1 if quick else 12
+            for b in range(batches):
+                recs = [run_history(ctx, ctx.rng, ctx.rng.randint(1, 25), b * 1000 + h) for h in range(260 if quick else 300)]
+                check_histories(ctx, recs)
+            recs = []
     check_histories(ctx, recs)
     ctx.notes.append("COps branches hit (update kind, position of target, offered kind -> count): "
                      + json.dumps(sorted((list(k), v) for k, v in ctx.branches.items())))
